@@ -161,6 +161,12 @@ func (c exactEqualsComparator) lineStringsEq(ls1, ls2 LineString) bool {
 	}
 
 	// Finally, check if the rings are the same once rotated.
+	// Rotating the start point leaves the closing vertex of each ring out of
+	// the comparison, which is only sound if it repeats the ring's first vertex
+	// entirely (including its Z and M values).
+	if c1.Get(0) != c1.Get(n-1) || c2.Get(0) != c2.Get(n-1) {
+		return false
+	}
 	for o := 1; o < n; o++ {
 		offset := func(i int) int {
 			return (i + o) % (n - 1)
